@@ -30,7 +30,7 @@ RULE = ("programs as in C01 plus handlers inserted at the front of exception_han
         "statement while it runs; exhaustive: all ordered "
         "pairs and triples of 29 behaviours over (test, tearDown, cleanup) and (setUp-registered cleanup, setUp); "
         "non-trivial = at least 2 raising statements or an inserted handler that claims a raised exception; "
-        "distinct = distinct JSON")
+        "distinct = distinct JSON; plus @unittest.expectedFailure tests whose body ends in every behaviour with later stages raising, force_failure set on the failed-setUp path, fixtures with an unevaluable detail")
 TRUSTED = ["a logging subclass of testtools.TestResult is the observation device (outcome calls, wasSuccessful())"]
 ASSUMPTIONS = ["the result object and addOnException handlers do not raise",
                "user-inserted handlers report exactly one outcome to the result, and not a success",
@@ -107,6 +107,12 @@ def generate(rng, tier):
     for k, (p, _) in enumerate(R.setup_force_programs()):
         cases.append({"prog": dict(p, handlers=[list(h) for h in HANDLER_SETS[k % len(HANDLER_SETS)]])})
         cases.append({"prog": p})
+    for k, (p, _) in enumerate(R.badfx_programs()):
+        if tier == "thorough" or k % 4 == 0:
+            cases.append({"prog": p})
+    # @unittest.expectedFailure tests whose body ends in every behaviour, later stages raising
+    for k, (p, _) in enumerate(R.xfail_programs()):
+        cases.append({"prog": dict(p, handlers=[list(h) for h in HANDLER_SETS[k % len(HANDLER_SETS)]]) if k % 3 == 0 else p})
     names = list(R.ALLB)
     # all ordered pairs (test, tearDown), (test, cleanup), (setUp-cleanup, setUp), (tearDown, cleanup)
     k = 0
